@@ -6,6 +6,9 @@ CONSTANTS
   Entries <- MCEntries
   Random <- MCRandom
   Seedable <- MCSeedRand
+  Objs <- MCNoObjs
+  ObjSeed <- MCObjSeed
+  ObjEntries <- MCSeedRand
   MaxOps = 4
   Variant = "spec"
 INVARIANT TypeOK
